@@ -6,14 +6,15 @@ import vlib
 MODEL = {"quick": dict(MaxN=3, MaxCells=4, MaxC=1, MaxK=2, RD=2, Forms='{"stable"}'),
          "thorough": dict(MaxN=3, MaxCells=6, MaxC=2, MaxK=2, RD=2, Forms='{"stable"}')}
 NAIVE = dict(MaxN=2, MaxCells=2, MaxC=1, MaxK=2, RD=2, Forms='{"naive"}')
-INVS = ["InvExact", "InvRegPD", "InvSylvester", "InvModel", "InvK1", "InvFailed", "InvRow", "InvSensitive", "InvPd3"]
+STICKY = dict(MaxN=2, MaxCells=2, MaxC=1, MaxK=2, RD=2, Forms='{"stable", "sticky"}')
+INVS = ["InvExact", "InvRegPD", "InvSylvester", "InvModel", "InvK1", "InvFailed", "InvRow", "InvSensitive", "InvPd3", "InvBudget"]
 ACTIONS = ["ChooseCfg", "ChooseData", "MEmpty", "MSingular", "MStep", "Query"]
 # (B) generator
-GEN = {"quick": dict(Tier='"quick"', Thin=6), "thorough": dict(Tier='"thorough"', Thin=7)}
+GEN = {"quick": dict(Tier='"quick"', Thin=7), "thorough": dict(Tier='"thorough"', Thin=7)}
 TRACE_CONST = dict(MaxN=0, MaxCells=0, MaxC=0, MaxK=0, RD=1, Forms="{}")
 
 REGS = [(0, 1), (1, 1000000), (1, 10000), (1, 100), (1, 2), (3, 1)]
-CFGS = [(1, 1000, 1, 100), (1, 1000000, 1, 300), (1, 10, 2, 100), (1, 1000, 1, 3), (1, 1000000, 3, 4), (1, 100000, 1, 8)]
+CFGS = [(1, 1000, 1, 100), (1, 1000000, 1, 300), (1, 10, 2, 100), (1, 1000, 1, 3), (1, 1000000, 3, 4), (1, 100000, 1, 8), (1, 1000, 3, 5), (1, 1000, 2, 6)]
 FAR = [10, 40, 1000, 1000000]
 
 
@@ -91,7 +92,13 @@ def run(ctx):
         rc, lines = vlib.tlc(ctx, "Gmm", {"constants": NAIVE, "invariants": ["InvRow"]}, workers=2, tag="Gmm_naive")
         if rc != 12 or not any("Invariant InvRow is violated" in l for l in lines):
             raise vlib.ToolError("design model: the naive log-sum-exp form was expected to violate InvRow (rc=%d)" % rc)
-        ctx.extra["design_negative_run"] = "naive log-sum-exp form violates InvRow (as expected)"
+        # negative run 2: a convergence flag that is not reset between the runs of fit must violate the
+        # budget-stability clause that Trace_Gmm applies to the implementation
+        rc, lines = vlib.tlc(ctx, "Gmm", {"constants": STICKY, "invariants": ["InvBudgetClause"]}, workers=2, tag="Gmm_sticky")
+        if rc != 12 or not any("Invariant InvBudgetClause is violated" in l for l in lines):
+            raise vlib.ToolError("design model: a sticky convergence flag was expected to violate InvBudgetClause (rc=%d)" % rc)
+        ctx.extra["design_negative_run"] = ("naive log-sum-exp form violates InvRow; convergence flag not reset between runs "
+                                            "violates InvBudgetClause (both as expected)")
 
     cases = vlib.tlc_gen(ctx, "Gen_Gmm", {"constants": GEN[ctx.tier], "invariants": ["Emit"]})
     if not ctx.quick:
@@ -105,6 +112,18 @@ def run(ctx):
         for e in t["ev"]:
             if e.get("ev") == "fit" and not e["ok"]:
                 errs[e["err"]] = errs.get(e["err"], 0) + 1
+    # how often the budget-stability clause had a true premise (statistics only; TLC decides the clause)
+    applied = {}
+    for t in ok_fits:
+        rf = [e for e in t["ev"] if e.get("ev") == "refit"]
+        md = [e for e in t["ev"] if e.get("ev") == "model"]
+        if rf and md and all(q["ok"] for q in rf[0]["prefix"]):
+            dgs = [q["dg"] for q in rf[0]["prefix"]] + [md[0]["dg"]]
+            if all(dgs[i] != dgs[i - 1] for i in range(1, len(dgs))):
+                applied[str(t["inp"]["runs"])] = applied.get(str(t["inp"]["runs"]), 0) + 1
+    ctx.extra["budget_clause_premise_true_by_n_runs"] = applied
+    if not any(int(k) >= 2 for k in applied):
+        raise vlib.ToolError("no case with n_runs >= 2 exercises the budget-stability clause (vacuous)")
     ctx.extra["fit_errors"] = errs
     ctx.extra["fits_succeeded"] = len(ok_fits)
     if len(ok_fits) * 3 < len(traces):
